@@ -2,7 +2,7 @@
    Model: LA/Gram.v - pivoted QR as pivoted Cholesky on the Gram matrix G = B B^T over exact rationals. *)
 From Coq Require Import List Arith QArith Qcanon.
 Import ListNotations.
-From PS Require Import Sel.ArgmaxGen Sel.Greedy Sel.Perm Sel.PermProofs LA.Sums LA.Gram LA.GramProofs LA.Ccqr LA.CcqrProofs.
+From PS Require Import Sel.ArgmaxGen Sel.Greedy Sel.Perm Sel.PermProofs LA.Sums LA.Gram LA.GramProofs LA.Dim LA.Ccqr LA.CcqrProofs.
 Close Scope Qc_scope.
 Open Scope nat_scope.
 
@@ -34,13 +34,31 @@ Proof. exact greedy_step_spec. Qed.
 Print Assumptions C03_greedy_step_spec.
 
 (* ranked rows with positive residual are linearly independent of the rows ranked before them; a zero residual means
-   dependence.  (partial: "the first r rows of a rank-r matrix have positive residual" needs a dimension argument that
-   is not proved here; the correspondence checks independence of the first rank(B) observed rows exactly) *)
-Theorem C03_positive_pivot_independent_partial : forall m n B R ranked p, resid_ok m n B R ranked -> p < n ->
+   dependence *)
+Theorem C03_positive_pivot_independent : forall m n B R ranked p, resid_ok m n B R ranked -> p < n ->
   ((0 < nrm2 m (R p))%Qc -> ~ lincomb m (map B ranked) (B p)) /\
   (nrm2 m (R p) = 0%Qc -> lincomb m (map B ranked) (B p)).
 Proof. intros. split; [now apply (positive_pivot_independent m n)|now apply (zero_residual_dependent m n)]. Qed.
-Print Assumptions C03_positive_pivot_independent_partial.
+Print Assumptions C03_positive_pivot_independent.
+
+(* "the first r ranked sensor rows of a rank-r basis matrix are linearly independent": if B has r rows (idx 0 .. idx (r-1))
+   none of which is a combination of the ones before it, then at every step j < r the pick has POSITIVE residual - hence
+   (C03_positive_pivot_independent) it is not a combination of the rows ranked before it.  Uses the dimension lemma
+   (LA/Dim.v: more vectors than dimensions have a non-trivial relation). *)
+Theorem C03_rank_r_pivots_positive : forall m n B (idx : nat -> nat) r j,
+  (forall k, k < r -> idx k < n) -> seq_indep m (fun k => B (idx k)) r -> j < r -> j <= n ->
+  let '(G, (rk, cs)) := grun Qc Qcleb qr_key n j (ginit n (gram m B)) in
+  let R := rows_after m n B rk in
+  cs <> [] ->
+  let p := nth (argmax_by Qc Qcleb (map (qr_key G) cs)) cs 0 in
+  (0 < nrm2 m (R p))%Qc.
+Proof. exact rank_pivots_positive. Qed.
+Print Assumptions C03_rank_r_pivots_positive.
+
+Theorem C03_dimension_lemma : forall m (u g : nat -> nat -> Qc) r j, seq_indep m u r ->
+  (forall k, k < r -> lincomb m (map g (seq 0 j)) (u k)) -> r <= j.
+Proof. exact span_dim. Qed.
+Print Assumptions C03_dimension_lemma.
 
 (* CCQR without costs IS the same ranking, ties included (GQR without constraint runs the very same loop: its
    constraint map is the identity, Sel/NormCalc.permit_free) *)
